@@ -164,6 +164,12 @@ class EnvRunner(core.Hooks):
             real_p[lb] = e
         pausey = after_op in ('pause', 'unpause', 'cancel')
         cl_set = 'C07.b' if pausey else 'C01.f'
+        # a cancelled event never runs again: whether it stays queued until its turn or is dropped at once is the
+        # implementation's business - forget the ones that are gone
+        for lb in [lb for lb in m.q if lb not in real_q and lb in m.cancelled]:
+            del m.q[lb]
+        for lb in [lb for lb in m.paused if lb not in real_p and lb in m.cancelled]:
+            del m.paused[lb]
         if set(real_q) != set(m.q):
             self.fail(cl_set, f'after {after_op}: queued events {sorted(map(str, real_q))} '
                       f'but the model has {sorted(map(str, m.q))}', 'qset')
@@ -289,7 +295,7 @@ class EnvRunner(core.Hooks):
         else:
             raise HarnessError(f'unknown op {op}')
         m_now = m.now
-        if env.now != m_now:
+        if self.model_ok and env.now != m_now:
             self.fail('C01.b', f'clock moved to {env.now} during op {kind} (was {m_now})', 'clock')
         self.compare_state(kind)
 
